@@ -81,7 +81,9 @@ CLAIMS.update({
         text=('Theorems: resolve_immediates visits every item at its own byte position and moves no label (imm_walk_positions), against the '
               'final label table, which assemble_layout proves to be the byte offsets; %offset(L) = labels[L] - position, %position(L, b) = '
               'labels[L] + b, a bare label = labels[L], %hi/%lo of those values (offset_value, position_value, hi_value, lo_value, '
-              'data_item_value, instr_item_value; the jalr of an auipc pair at the auipc position). The check recovers the value each referring item encodes in the real '
+              'data_item_value, instr_item_value; the jalr of an auipc pair at the auipc position); assemble_data_value composes this through the '
+              'pipeline: a db/dh/dw/dd <expr> item emits at its byte offset the little-endian bytes of the value of <expr> evaluated at that '
+              'offset against the returned tables. The check recovers the value each referring item encodes in the real '
               'output (data bytes, decoded immediates, executed li) for dw/dd/pack, li, %hi/%lo pairs and I-type immediates written as bare '
               'labels, %position and %offset, before/after the label, across aligns and shrinking code, both modes. Known findings: KF-D '
               '(li with %offset, long form), KF-A (stale early decisions).'),
